@@ -112,6 +112,29 @@ class FormatSpec(c01.ProgSpec):
                 k += 1
             if len([1 for num, body in shown if body.startswith(('>>>', '...'))]) < sum(1 for l in src_only if l.startswith(('>>>', '...'))):
                 atoms.append({'sig': 'linenos:source-line-without-number', 'msg': fl})
+        # (f) the same docstring collected the way a module's docstring is (freeform extraction lumps the groups
+        #     of a docstring into one doctest whose parts keep their distance): numbers still name real lines
+        from xdoctest import core
+        for L in (1, 41):
+            try:
+                exs = list(core.parse_docstr_examples(text, callname='f', modpath=None, lineno=L, style='freeform'))
+            except Exception as ex:
+                atoms.append({'sig': 'extract:raises:' + type(ex).__name__, 'msg': repr(ex)})
+                break
+            for e in exs:
+                for offset in (True, False):
+                    fl = e.format_src(linenos=True, colored=False, want=True, offset_linenos=offset, prefix=True)
+                    n += 1
+                    base = L if offset else (1 - (e.lineno - L))
+                    for line in fl.split('\n'):
+                        mm = NUM_RE.match(line)
+                        if mm and mm.group(2).startswith(('>>>', '...')):
+                            idx = int(mm.group(1)) - base
+                            if not (0 <= idx < len(doclines)) or doclines[idx].strip() != mm.group(2).strip():
+                                atoms.append({'sig': 'linenos:extracted:%s' % ('file-relative' if offset else 'doctest-relative'),
+                                              'msg': 'docstring at line %d: %r displayed with number %s; that position holds %r' % (
+                                                  L, mm.group(2), mm.group(1), doclines[idx] if 0 <= idx < len(doclines) else None)})
+                                break
         seen = set()
         uniq = []
         for a in atoms:
